@@ -53,6 +53,9 @@ def run(ctx):
                 ev = json.loads(open(f).read().split("\n")[matched[0]])
             except Exception:
                 pass
+            if ev and ev.get("e") == "TryBlocked":
+                ctx.violation("%s:trylock-blocked" % label, "trylock (%s) did not return within 3 s while another thread held the lock all the time: trylock must never block" % label, [f])
+                continue
             ctx.violation("%s:not-linearizable" % label, "lock history (%s) is not explained by a single-owner lock whose critical-section writes are visible to the next holder; stuck at event %s: %s" % (label, matched[0], json.dumps(ev)[:300]), [f])
     ctx.extra["histories"] = {}
     for label, f in files:
